@@ -429,6 +429,9 @@ func c02Seeds(thorough bool) []*c02Seed {
 		}
 		var fonts []ff
 		for _, cf := range c18Fonts(false) {
+			if cf.large {
+				continue // (the seeds are small: every single deviation of every byte is tried)
+			}
 			fonts = append(fonts, ff{cf.name, cf.file})
 		}
 		// a font whose character map gives 'H' and 'x' by explicit glyph-id fields (format 12), with no
@@ -893,7 +896,7 @@ func c02Corruptions(r *run.Run, seeds []*c02Seed) {
 		muts[i] = c02ByteMutations(s.data)
 		total += len(muts[i])
 	}
-	r.ExploreSharded(explore.Config{Name: "C02.corruptions-1", Deadline: r.PartDeadline(0.4)},
+	r.ExploreSharded(explore.Config{Name: "C02.corruptions-1", Deadline: r.PartDeadline(0.6)},
 		fmt.Sprintf("%d seeds (every decoder of the property; whole fonts and their tables, one table per lookup type/format, cmap formats 0/4/6/12, name, post 1/2/3, kern) x EVERY single deviation (%d in total): every truncation length, every byte x {00,01,7F,80,FF}, every 2-aligned 16-bit field x {0..8,7FFF,8000,FFFE,FFFF,len-1,len,len+1,len-pos,old+-1,old+2,2*old}, every 2-aligned 32-bit field x {0,7FFFFFFF,80000000,FFFFFFFE,FFFFFFFF,len,len+-1,old+-1}, appended bytes; after a successful decode the lazy accessors run", len(seeds), total), c02Procs, c02Mem,
 		func(c *explore.Ctx) {
 			si := c.Choose(len(seeds), "seed")
